@@ -12,6 +12,7 @@ import (
 	"strings"
 	"time"
 
+	"github.com/nyaruka/gocommon/dates"
 	"github.com/nyaruka/gocommon/i18n"
 	"github.com/nyaruka/goflow/envs"
 	"github.com/nyaruka/goflow/excellent/functions"
@@ -52,22 +53,22 @@ type c13Case struct {
 	Variant int      `json:"variant"`
 }
 type C13Line struct {
-	Src       string `json:"src"`
-	Kind      string `json:"kind"`
-	Text      string `json:"text"`
-	Ok        bool   `json:"ok"`
-	BackEqual bool   `json:"back_equal"`
-	EqCanon   bool   `json:"eq_canon"`
-	Rendered  string `json:"rendered"`
-	Dt        adt    `json:"dt"`
-	Fmt       afmt   `json:"fmt"`
-	Parsed    adt    `json:"parsed"`
-	Zone      string `json:"zone"`
-	OffsetHasSeconds bool `json:"offset_has_seconds"`
-	Equiv     bool   `json:"equiv"`
-	Out       string `json:"out"`
-	Panic     string `json:"panic"`
-	Desc      string `json:"desc"`
+	Src              string `json:"src"`
+	Kind             string `json:"kind"`
+	Text             string `json:"text"`
+	Ok               bool   `json:"ok"`
+	BackEqual        bool   `json:"back_equal"`
+	EqCanon          bool   `json:"eq_canon"`
+	Rendered         string `json:"rendered"`
+	Dt               adt    `json:"dt"`
+	Fmt              afmt   `json:"fmt"`
+	Parsed           adt    `json:"parsed"`
+	Zone             string `json:"zone"`
+	OffsetHasSeconds bool   `json:"offset_has_seconds"`
+	Equiv            bool   `json:"equiv"`
+	Out              string `json:"out"`
+	Panic            string `json:"panic"`
+	Desc             string `json:"desc"`
 }
 
 var c13Zones = []string{"UTC", "America/Guayaquil", "Asia/Kolkata", "Africa/Kigali", "Europe/London", "Pacific/Kiritimati"}
@@ -150,6 +151,7 @@ func c13Values(args []string) error {
 	shard := fs.Int("shard", 0, "")
 	nshards := fs.Int("nshards", 1, "")
 	every := fs.Int("every", 1, "use every n-th date-time case")
+	window := fs.Int("window", 256, "consecutive microsecond values tried per time-of-day case")
 	fs.Parse(args)
 	lw, f, err := newLineWriter(*out)
 	if err != nil {
@@ -260,6 +262,80 @@ func c13Values(args []string) error {
 				})
 				emit(line)
 			}
+		case "tod":
+			// concrete sub-second values of the class: every whole microsecond of a window that moves with the case, a
+			// spread over the whole second, and for class 2 the same plus a nanosecond remainder (cut when rendered)
+			h := fnv.New32a()
+			h.Write(data)
+			var fracs []int // nanoseconds
+			switch c.Dt.Us {
+			case 0:
+				fracs = []int{0}
+			default:
+				base := int(h.Sum32()%4) * *window
+				for k := 0; k < *window; k++ {
+					fracs = append(fracs, (base+k)*1000)
+				}
+				for k := 1; k <= *window/4; k++ {
+					fracs = append(fracs, int((uint64(h.Sum32())*uint64(k)*2654435761)%1000000)*1000)
+				}
+				if c.Dt.Us == 2 {
+					for k := range fracs {
+						fracs[k] += 1 + (k*37)%999
+					}
+				}
+			}
+			if !c.Fmt.Iso && len(fracs) > 3 {
+				fracs = fracs[:3] // the environment formats show no fraction at all
+			}
+			for _, ns := range fracs {
+				d := *c
+				line := &C13Line{Src: fmt.Sprintf("%s/ns%d", src, ns), Kind: "tod", Dt: c.Dt, Fmt: c.Fmt, Desc: string(mustJSON(d))}
+				line.Dt.Us = ns / 1000
+				guard(line, func() {
+					eb := envs.NewBuilder().WithTimeFormat(envs.TimeFormat(c.Fmt.Tf))
+					if c.Fmt.Lang != "" {
+						eb = eb.WithAllowedLanguages(i18n.Language(c.Fmt.Lang))
+					}
+					e := eb.Build()
+					x := types.NewXTime(dates.NewTimeOfDay(c.Dt.H, c.Dt.Mi, c.Dt.S, ns))
+					if c.Fmt.Iso {
+						line.Text = x.Render()
+					} else {
+						line.Text = x.Format(e)
+					}
+					p, xerr := types.ToXTime(e, types.NewXText(line.Text))
+					if xerr != nil {
+						return
+					}
+					line.Ok = true
+					pt := p.Native()
+					line.Parsed = adt{c.Dt.Y, c.Dt.Mo, c.Dt.D, pt.Hour, pt.Minute, pt.Second, pt.Nanos / 1000}
+					if pt.Nanos%1000 != 0 {
+						line.Parsed.Us = -pt.Nanos // finer than the text it was parsed from: never equal to what was rendered
+					}
+				})
+				emit(line)
+			}
+		case "date":
+			line := &C13Line{Src: src, Kind: "date", Dt: c.Dt, Fmt: c.Fmt, Desc: string(data)}
+			guard(line, func() {
+				e := envs.NewBuilder().WithDateFormat(envs.DateFormat(c.Fmt.Df)).Build()
+				x := types.NewXDate(dates.NewDate(c.Dt.Y, c.Dt.Mo, c.Dt.D))
+				if c.Fmt.Iso {
+					line.Text = x.Render()
+				} else {
+					line.Text = x.Format(e)
+				}
+				p, xerr := types.ToXDate(e, types.NewXText(line.Text))
+				if xerr != nil {
+					return
+				}
+				line.Ok = true
+				pd := p.Native()
+				line.Parsed = adt{pd.Year, int(pd.Month), pd.Day, 0, 0, 0, 0}
+			})
+			emit(line)
 		case "json":
 			line := &C13Line{Src: src, Kind: "json", Desc: string(data)}
 			var doc string
